@@ -82,8 +82,14 @@ var (
 	waiting  = map[int]chan struct{}{}
 	gateBase []int // first gate id of node i; roots follow
 	tokRx    = regexp.MustCompile(`E\d+`)
-	pctMark  = " 100%z|%s"
+	pctMark  = " 100%z|%s Straße→世界\u2028"
 )
+
+type notConfigured struct{}
+
+func (*notConfigured) Error() string { return "" }
+
+var errNotConfigured *notConfigured
 
 type tagKey struct{}
 
@@ -276,6 +282,9 @@ func body(kind, slot int, ctx context.Context, args []interface{}) error {
 	case "errwrap":
 		logEv(event{E: "be", K: n, R: "err", Code: 1, Toks: []string{tok}})
 		return fmt.Errorf("step failed: %w", mg.Fatal(nd.Result.Code, "wrapped "+tok+pctMark))
+	case "errnilptr":
+		logEv(event{E: "be", K: n, R: "err", Code: 1})
+		return errNotConfigured // a non-nil error interface holding a nil pointer (a sentinel with nil-safe methods)
 	case "errzero":
 		logEv(event{E: "be", K: n, R: "err", Code: 0, Toks: []string{tok}})
 		return zeroStatusErr("tool reported " + tok + pctMark)
